@@ -10,8 +10,10 @@ package kdtree
 // Bulk construction draws random pivots (medians.go: Select calls rand.IntN
 // in a loop that only terminates with probability one). The harness replaces
 // rand.IntN by a case split over every value of its contract and prunes
-// histories that need more than `kddraws` draws in one New call: a finite,
-// exhaustive exploration of all pivot sequences up to that length.
+// histories that need more than `kddraws` (default: points + 1) draws in one
+// New call: a finite, exhaustive exploration of all pivot sequences up to that
+// length. Natively the stub is not installed (real random pivots): every
+// assertion holds for any pivots.
 
 // verifC20Points returns the query q and n points p_i = q + u_i with q and all
 // u_i symbolic: a bijective reparametrisation of "all points and the query
@@ -62,8 +64,11 @@ const (
 	verifC20Mixed
 )
 
-func verifC20StubRand() {
-	max := verifParam("kddraws", 4)
+func verifC20StubRand(n int) {
+	max := verifParam("kddraws", 0)
+	if max == 0 {
+		max = n + 1
+	}
 	draws := 0
 	verifStubFunc("math/rand/v2.IntN", func(n int) int {
 		draws++
@@ -86,7 +91,7 @@ func verifC20Tree(pts Points, hist int, bounding bool) *Tree {
 	if nb == 0 {
 		t = &Tree{}
 	} else {
-		verifC20StubRand()
+		verifC20StubRand(nb)
 		cp := make(Points, nb)
 		copy(cp, pts[:nb])
 		t = New(cp, bounding)
